@@ -55,6 +55,16 @@ Fixpoint encode_all (m : model) (indent : option Z) (compact : bool) (gs : list 
       Ok (s :: ss)
   end.
 
+(* [codec.decode(s) for s in strings] *)
+Fixpoint decode_all (m : model) (ss : list str) : outcome (list graph) :=
+  match ss with
+  | [] => Ok []
+  | s :: ss' =>
+      g <- decode m s ;;
+      gs <- decode_all m ss' ;;
+      Ok (g :: gs)
+  end.
+
 Definition BLANKLINE : str := [10;10]%N.
 
 (* _dumps *)
